@@ -266,6 +266,37 @@ func TestRAC_C04(t *testing.T) {
 			}
 		}
 	}
+	// one evaluator prepared with one script after the other: each script still names its own fields
+	for _, optimize := range []bool{true, false} {
+		re, err := newRacEval("return Int;", optimize)
+		if err != nil {
+			add("field", "return Int;", "", "accepted", err.Error())
+			continue
+		}
+		scripts := []string{"return S;", "return [F64, Int];", "return I64;", "return [S, B, Int];", "x = Int; return [SS, x];", "return Nothing;", "return [B, S];", "return Int;"}
+		wants := []string{"STRING:héllo", "ARRAY:[10000000000000000, -3]", "INTEGER:1099511627776", "ARRAY:[héllo, true, -3]", "ARRAY:[[b, a, ], -3]", "NULL:null", "ARRAY:[true, héllo]", "INTEGER:-3"}
+		for round := 0; round < 2; round++ {
+			for i, src := range scripts {
+				re.e.Script = src
+				var perr error
+				if optimize {
+					perr = re.e.Prepare()
+				} else {
+					perr = re.e.Prepare([]byte{NoOptimize})
+				}
+				rep.Runs++
+				got := "error"
+				if perr != nil {
+					got = "rejected: " + perr.Error()
+				} else if out, err := re.e.Execute(kinds); err == nil {
+					got = showObj(out)
+				}
+				if got != wants[i] {
+					add("field-after-another-script", src, fmt.Sprintf("optimize=%v: the evaluator was prepared with other scripts before (round %d)", optimize, round+1), wants[i], got)
+				}
+			}
+		}
+	}
 	for _, v := range rep.Violations {
 		t.Logf("RAC-VIOLATION kind=%s script=%q input=%s expected %s got %s", v.Kind, v.Script, v.Input, v.Expected, v.Got)
 	}
